@@ -44,6 +44,13 @@ def stack_failure(tmpl, H, W, placements):
                 exp += dense_stamp(np.asarray(tmpl, dtype=np.float64), oy, ox, H, W)
         if not np.array_equal(d[l], exp):
             return 'layer %d differs from the clipped dense stamp: got %s expected %s' % (l, d[l].tolist(), exp.tolist())
+        # a layer taken out of the sparse stack (what a consumer indexing the stack sees) is the same layer
+        try:
+            dl = np.asarray(st[l].todense(), dtype=np.float64)
+        except Exception as e:  # noqa
+            return 'indexing layer %d of the sparse stack raised %s: %s' % (l, type(e).__name__, e)
+        if not np.array_equal(dl, exp):
+            return 'stack[%d] (layer access on the sparse stack, mask_index order %s) differs from the clipped dense stamp: got %s expected %s' % (l, idx, dl.tolist(), exp.tolist())
     return None
 
 
